@@ -745,6 +745,22 @@ class C17(PropBase):
                     vs.append({"msg": "cmd %d: I/O on a file that is not a WAL file of the library: %s" % (i, l), "shape": "foreign-io"})
                     return vs
             lsl = ls_of(c)
+            out = outcome_of(c) or ""
+            if "err=Io:AlreadyExists" in out and lsl:
+                # "ordered by that number with gaps allowed": creating the next WAL file can only collide with a foreign
+                # NON-file carrying the next number (last regular WAL file + 1); existing regular WAL files at gapped
+                # numbers are part of the log, never in the way
+                regular, blockers = [], []
+                for l in lsl:
+                    p = l.split(" ", 3)
+                    nm = bytes.fromhex(p[1][1:]).decode("utf-8", "replace")
+                    if WAL_RE.match(nm) and int(nm[4:]) < 2 ** 64:      # 20 digits above u64::MAX: not a WAL name
+                        (regular if p[2] == "f" else blockers).append(int(nm[4:]))
+                nxt = (max(regular) + 1) if regular else 0
+                if nxt not in blockers:
+                    vs.append({"msg": "cmd %d `%s`: %s although nothing foreign holds the name of the next WAL file (regular WAL files %r, foreign WAL-named entries %r)" % (
+                        i, cmds[i] if i < len(cmds) else "", out, sorted(regular), sorted(blockers)), "shape": "gap-not-allowed"})
+                    return vs
             if lsl and i >= nseeds:
                 have = {l.split(" ", 2)[1][1:]: l.split(" ", 2)[2] for l in lsl}
                 for k, d in foreign.items():
